@@ -48,8 +48,9 @@ theorem C10_flush_point (L : DynLeaves MF Tok) {mode : Mode} (S : Sound L mode) 
   obtain ⟨st, hinf⟩ := inflate_of_chain _ hch
   exact ⟨f1, f4, st, hinf⟩
 
-theorem C10_stream_stays_valid (L : DynLeaves MF Tok) {mode : Mode} (S : Sound L mode) (c : Cfg) (D : List UInt8)
-    (w : WState MF Tok) (ht : Tracks L S D w) : Tracks L S D (flush L c w).1 := by
+theorem C10_stream_stays_valid (L : DynLeaves MF Tok) {mode : Mode} (S : Sound L mode) (c : Cfg) {base : Nat}
+    {H : List UInt8} (D : List UInt8) (w : WState MF Tok) (ht : Tracks L S base H D w) :
+    Tracks L S base H D (flush L c w).1 := by
   obtain ⟨_, f2, f3, _⟩ := flush_tracks L S c D w ht.1 ht.2
   exact ⟨f2, f3⟩
 
